@@ -330,13 +330,13 @@ def obligations(tier, seed):
     for k in range(8):
         p = {"kind": k}
         if tier == "quick":
-            p["sis"] = [0, 2, 5, 10, 13]
+            p["sis"] = [0, 2, 5, 10, 13, 17]
         obs.append({"name": "step-fields/kind=%d" % k, "fn": "ob_step", "P": p, "timeout": T})
         docs = [0] if tier == "quick" else [0, 1]
-        sis = ([2, 5, 13] if tier == "quick" else [0, 2, 5, 7, 10, 13]) if k < 2 else [0]
+        sis = ([2, 5, 13, 17] if tier == "quick" else [0, 2, 5, 7, 10, 13, 17, 18]) if k < 2 else [0]      # 17, 18: zero-size, non-empty
         for di in docs:
             for si in sis:
-                if k == 1 and tier == "quick" and si != 5:
+                if k == 1 and tier == "quick" and si not in (5, 17):
                     continue
                 size = common.templates.doc("list", di).content.size
                 for aa in (range(-1, size + 2) if k in (1, 6) else [None]):
